@@ -37,6 +37,7 @@ func runC02(r *an.Run) {
 	c02CapturedCompilerUntweaked(r)
 	c01IgnoreSet(r)
 	relabel(r, "R6-ignore-set", "R7-captured-matcher-ignores-nothing-more")
+	memoDependencies(r, "R8-failure-memo-sees-every-binding")
 }
 
 // relabel renames the rule of obligations produced by a rule function shared
